@@ -9,7 +9,7 @@ Import ListNotations.
 (* sympy.diff (with the chain rule through mapping components for logical operators)
    on function-free expressions: modelled by the reference derivative [tD]. *)
 Definition sdiff (lg : bool) (i : nat) (e : sx) : option sx :=
-  option_map t2s (tD lg i (sx2t e)).
+  option_map (fun t => ssimp (t2s t)) (tD lg i (sx2t e)).
 
 (* arms 1-4: derivative chains over an atom are kept as (canonically ordered) atoms *)
 Definition dop_atom (lg : bool) (i : nat) (a : atom) : option sx :=
